@@ -114,12 +114,12 @@ Section Inv.
   Definition vis_ok (P : list (nat * N)) (F : bframe) : Prop :=
     forall i, In i (bvis F) -> (exists n, lookup (btable F) i = Some n /\ In n (names F)) \/ In (bdepth F, i) P.
 
-  Record inv (bs : bstack) (d sz : nat) (P : list (nat * N)) : Prop := {
+  Record inv (bs : bstack) (d sz szP : nat) (P : list (nat * N)) : Prop := {
     i_lt : forall F, In F bs -> (bdepth F < d)%nat;
     i_nd : NoDup (map bdepth bs);
     i_fr : forall F, In F bs -> frame_ok F;
     i_anc : forall F Y, In F bs -> subterm Y R -> nid Y = bnode F -> (sz < size Y)%nat;
-    i_P : forall k i Y, In (k, i) P -> subterm Y R -> nid Y = i -> (sz <= size Y)%nat;
+    i_P : forall k i Y, In (k, i) P -> subterm Y R -> nid Y = i -> (szP <= size Y)%nat;
     i_Plt : forall k i, In (k, i) P -> (k < d)%nat;
     i_vis : forall F, In F bs -> vis_ok P F;
     i_names : forall F, In F bs -> names_ok P F
